@@ -13,6 +13,7 @@ def St.env (st : St) : Env :=
 
 def errName : Err → String
   | .dangling => "dangling" | .missingFile => "missing-file" | .newManifestNonZeroLock => "new-manifest-nonzero-lock"
+  | .noTables => "no-tables"
   | .emptyLock => "empty-lock" | .zeroChunks => "zero-chunks" | .putFailed => "put-failed"
   | .tableNotFound => "table-not-found" | .lockTimeout => "lock-timeout"
 
@@ -50,6 +51,7 @@ def step (st : St) : List String → St × String
   | ["cresume", i] => match i.toNat? with | some i => doOp st (.cresume i) | _ => (st, "bad-op")
   | ["ctimeout", i] => match i.toNat? with | some i => doOp st (.ctimeout i) | _ => (st, "bad-op")
   | ["rebase", i] => match i.toNat? with | some i => doOp st (.rebase i) | _ => (st, "bad-op")
+  | ["conjoin", i] => match i.toNat? with | some i => doOp st (.conjoin i) | _ => (st, "bad-op")
   | ["wtable", t] => match parseNatList t with | some t => doOp st (.writeTable t) | _ => (st, "bad-op")
   | ["addtables", i, ts] => match i.toNat?, parseTables ts with
     | some i, some ts => doOp st (.addTables i ts) | _, _ => (st, "bad-op")
